@@ -278,10 +278,10 @@ pub(crate) fn run_c07(_replay: Option<&str>) -> Report {
     rep.rule = "two live sessions (daemon roles active and passive) of one neighbour over loopback TCP; the neighbour's OPEN is sent on one, then on the other (both orders), with its BGP identifier below / above the daemon's; the loser must receive NOTIFICATION 6/7 and end-of-stream, the survivor a KEEPALIVE and nothing else, and it must reach Established after the neighbour's KEEPALIVE".into();
     let rt = runtime();
     let local_id = u32::from(Ipv4Addr::new(10, 0, 0, 254));
-    for remote_bigger in [false, true] {
-        for first_active in [false, true] {
+    for (remote_bigger, first_active, silent) in [(false, false, false), (false, true, false), (true, false, false), (true, true, false), (false, false, true), (false, true, true), (true, false, true), (true, true, true)] {
+        {
             let remote_id = if remote_bigger { local_id + 1 } else { local_id - 1 };
-            let case = format!("collision#{}#{}", if remote_bigger { "remote-id-above" } else { "remote-id-below" }, if first_active { "open-on-active-first" } else { "open-on-passive-first" });
+            let case = format!("collision#{}#{}{}", if remote_bigger { "remote-id-above" } else { "remote-id-below" }, if first_active { "open-on-active-first" } else { "open-on-passive-first" }, if silent { "#then-silent" } else { "" });
             let r: Result<Vec<String>, String> = rt.block_on(async {
                 use crate::fsm::Role::{Active, Passive};
                 let addr = IpAddr::V4(Ipv4Addr::new(127, 0, 8, 212));
@@ -291,7 +291,8 @@ pub(crate) fn run_c07(_replay: Option<&str>) -> Report {
                 let mut c1 = connect(&d, addr, r1).await?.ok_or("first connection refused")?;
                 let mut c2 = connect(&d, addr, r2).await?.ok_or("second connection refused")?;
                 let caps = vec![packet::Capability::MultiProtocol(Family::IPV4), packet::Capability::FourOctetAsNumber(65001)];
-                let my_open = bgp::Message::Open(bgp::Open { as_number: 65001, holdtime: HoldTime::new(90).ok_or("hold")?, router_id: remote_id, capability: caps });
+                // hold time 3: the survivor owes a KEEPALIVE every second
+                let my_open = bgp::Message::Open(bgp::Open { as_number: 65001, holdtime: HoldTime::new(3).ok_or("hold")?, router_id: remote_id, capability: caps });
                 for c in [&mut c1, &mut c2] {
                     match c.read_msg().await? {
                         Some(bgp::ParsedMessage::Open(_)) => {}
@@ -349,7 +350,39 @@ pub(crate) fn run_c07(_replay: Option<&str>) -> Report {
                         _ => vs.push("survivor-stuck: the surviving connection did not answer the OPEN with a KEEPALIVE".into()),
                     }
                 }
-                if vs.iter().all(|v| !v.starts_with("wrong-survivor")) {
+                if silent && vs.iter().all(|v| !v.starts_with("wrong-survivor")) {
+                    // the neighbour says nothing more: the survivor, in OpenConfirm with a negotiated hold time of
+                    // 3 s, must give up with Hold Timer Expired (real time: 9 s allowed, verdict dropped if the
+                    // machine could not keep a 20 ms timer within 2 s)
+                    let t0 = std::time::Instant::now();
+                    let mut worst = Duration::ZERO;
+                    let mut expired = false;
+                    while t0.elapsed() < Duration::from_secs(9) {
+                        let t = std::time::Instant::now();
+                        match tokio::time::timeout(Duration::from_millis(20), win.read_msg()).await {
+                            Ok(Ok(Some(bgp::ParsedMessage::Notification(n)))) => {
+                                if n.notification_code() == 4 {
+                                    expired = true;
+                                } else {
+                                    vs.push(format!("survivor-disturbed: the silent survivor got NOTIFICATION {}/{}", n.notification_code(), n.notification_subcode()));
+                                    expired = true;
+                                }
+                                break;
+                            }
+                            Ok(Ok(None)) => {
+                                vs.push("survivor-closed-without-notification: the silent survivor was closed without Hold Timer Expired".into());
+                                expired = true;
+                                break;
+                            }
+                            Ok(Ok(Some(_))) => {}
+                            Ok(Err(e)) => return Err(e),
+                            Err(_) => worst = worst.max(t.elapsed().saturating_sub(Duration::from_millis(20))),
+                        }
+                    }
+                    if !expired && worst < Duration::from_secs(2) {
+                        vs.push("survivor-timers-off: the surviving connection (OpenConfirm, negotiated hold time 3 s) was still open after 9 s of silence: its hold timer does not run".into());
+                    }
+                } else if vs.iter().all(|v| !v.starts_with("wrong-survivor")) {
                     if !(win.send(&bgp::Message::Keepalive).await && win.barrier().await) {
                         vs.push("survivor-disturbed: the surviving connection ended after the collision was resolved".into());
                     } else {
@@ -357,6 +390,42 @@ pub(crate) fn run_c07(_replay: Option<&str>) -> Report {
                         let est = st.map(|(a, p, _, _)| if survivor_role == Active { a } else { p });
                         if est != Some(crate::fsm::State::Established) {
                             vs.push(format!("survivor-not-established: after the neighbour's KEEPALIVE the surviving connection is in {:?}", est));
+                        } else {
+                            // the survivor's own timers run with the negotiated values: a KEEPALIVE is due after 1 s.
+                            // Real time: six intervals are allowed, and the verdict is dropped if the machine
+                            // itself could not keep a 20 ms timer within 2 s during the wait.
+                            let t0 = std::time::Instant::now();
+                            let mut worst = Duration::ZERO;
+                            let mut got_ka = false;
+                            while t0.elapsed() < Duration::from_secs(6) {
+                                let t = std::time::Instant::now();
+                                match tokio::time::timeout(Duration::from_millis(20), win.read_msg()).await {
+                                    Ok(Ok(Some(bgp::ParsedMessage::Keepalive))) => {
+                                        got_ka = true;
+                                        break;
+                                    }
+                                    Ok(Ok(Some(bgp::ParsedMessage::Notification(n)))) => {
+                                        vs.push(format!("survivor-disturbed: the surviving connection got NOTIFICATION {}/{} while it was being kept alive", n.notification_code(), n.notification_subcode()));
+                                        got_ka = true;
+                                        break;
+                                    }
+                                    Ok(Ok(None)) => {
+                                        vs.push("survivor-disturbed: the surviving connection was closed".into());
+                                        got_ka = true;
+                                        break;
+                                    }
+                                    Ok(Ok(Some(_))) => {}
+                                    Ok(Err(e)) => return Err(e),
+                                    Err(_) => worst = worst.max(t.elapsed().saturating_sub(Duration::from_millis(20))),
+                                }
+                                // keep our side alive as well
+                                if t0.elapsed().as_millis() % 1000 < 25 {
+                                    let _ = win.send(&bgp::Message::Keepalive).await;
+                                }
+                            }
+                            if !got_ka && worst < Duration::from_secs(2) {
+                                vs.push("survivor-timers-off: the surviving connection (negotiated hold time 3 s) sent no KEEPALIVE within 6 s of reaching Established".into());
+                            }
                         }
                     }
                 }
